@@ -1,4 +1,5 @@
 """C12 - Payoffs equal their contractual definitions and ordering."""
+import math
 from fractions import Fraction as Fr
 
 import mpmath as mp
@@ -24,6 +25,7 @@ ASSUMPTIONS = [
 ]
 
 OPTION_FNS = ["european", "lookback", "european_binary", "american_binary"]
+OVERFLOW_GUARD = {EPS["float32"]: Fr(10) ** 30, EPS["float64"]: Fr(10) ** 300}
 OPTION_CLS = {"european": "EuropeanOption", "lookback": "LookbackOption",
               "european_binary": "EuropeanBinaryOption", "american_binary": "AmericanBinaryOption"}
 
@@ -169,7 +171,7 @@ def _values(ctx, label, got, N):
 def _cmp_exact(ctx, label, got, want, eps, what):
     """got: list of floats, want: list of Fractions; one rounding of the exact value is allowed."""
     for n, (g, w) in enumerate(zip(got, want)):
-        if g != g or abs(Fr(g) - w) > Fr(eps) * abs(w):
+        if not math.isfinite(g) or abs(Fr(g) - w) > Fr(eps) * abs(w):
             ctx.fail(label, f"{what} path {n}: got {g!r}, contract {float(w)!r}", path=n, got=g, want=float(w))
             return False
     return True
@@ -245,7 +247,7 @@ def check_functional(case, ctx):
     if ctx.check(tuple(out.shape) == shape, label + "/shape", f"shape {tuple(out.shape)} != {shape}"):
         for n, g in enumerate(flat(out).tolist()):
             w, scale = O.forward_start(spot[n], strike, si, -1 if ei is None else ei)
-            if g != g or abs(Fr(g) - w) > 4 * Fr(eps) * scale:
+            if not math.isfinite(g) or abs(Fr(g) - w) > 4 * Fr(eps) * scale:
                 ctx.fail(label + "/value", f"path {n}: got {g!r}, contract {float(w)!r} (start {si}, end {ei})", path=n)
                 break
 
@@ -305,9 +307,12 @@ def _check_clauses(ctx, label, deriv, specs, base_vals, spot, eps):
     ctx.check(names == ["c%d_%s" % (i, s["kind"]) for i, s in enumerate(specs)], label + "/clause-names",
               f"named_clauses() order {names}")
     for n in range(N):
-        w, err = O.apply_clauses_exact(specs, Fr(base_vals[n]), spot[n], eps)
+        w, err, peak = O.apply_clauses_exact(specs, Fr(base_vals[n]), spot[n], eps)
         g = got[n]
-        if g != g or abs(Fr(g) - w) > err + Fr(eps) * abs(w):
+        if peak > OVERFLOW_GUARD[eps]:
+            ctx.exclude("clause-chain-overflows-dtype")  # repeated squares leave the float range: nothing to compare
+            continue
+        if not math.isfinite(g) or abs(Fr(g) - w) > err + Fr(eps) * abs(w):
             ctx.fail(label + "/clauses-in-order",
                      f"path {n}: payoff() = {g!r}, clauses in registration order on payoff_fn()={base_vals[n]!r} give {float(w)!r}",
                      path=n, clauses=specs)
@@ -389,7 +394,7 @@ def check_forward_start(case, ctx):
         ok = True
         for n in range(N):
             w, scale = O.forward_start(spot[n], strike, i)
-            if got[n] != got[n] or abs(Fr(got[n]) - w) > 4 * Fr(eps) * scale:
+            if not math.isfinite(got[n]) or abs(Fr(got[n]) - w) > 4 * Fr(eps) * scale:
                 ok = False
                 break
         ok_any = ok_any or ok
